@@ -707,6 +707,10 @@ Definition gen_facts : facts :=
 Definition session_maps_locked : bool :=
   negb (is_nil session_map_accesses) && forallb (fun x => snd x) session_map_accesses.
 
+(* every Lock in the handler files is released on every path of its function *)
+Definition locks_released : bool :=
+  negb (is_nil lock_paths) && forallb (fun x => snd x) lock_paths.
+
 (* ---- correspondence ---- *)
 
 Record ccase := mkcase { cc_comp : comp; cc_env : env; cc_start : token; cc_rds : list rd; cc_obs : cls }.
